@@ -11,10 +11,16 @@ open Rivaas.Gen.ErrFmt Rivaas.Tie.Flat
 /-- the extractor understood every statement it met -/
 theorem errfmt_extracted : problem = none := by decide
 
-/-- `fail` aborts the chain before anything else: `c.Abort()` is its first event, so it dominates every `return`
-    (the encoding-failure paths included) and every write (model: `aborted := true` in every `Resp`) -/
+/-- `fail` aborts the chain before anything that can end it or go wrong: `c.Abort()` comes before the first
+    `return` (the encoding-failure paths included), before the first `Format` (user code: the formatter, the error's
+    `Error()` / `Details()`), before the log line and before every write (model: `aborted := true` in every `Resp`) -/
 theorem fail_abort_dominates :
-    nothingBefore (call "Abort") fail_events = true ∧ count (call "Abort") fail_events = 1 := by decide
+    count (call "Abort") fail_events = 1 ∧
+    firstBefore (call "Abort") (kw "return") fail_events = true ∧
+    firstBefore (call "Abort") (call "Format") fail_events = true ∧
+    firstBefore (call "Abort") (call "ErrorContext") fail_events = true ∧
+    firstBefore (call "Abort") (call "Header") fail_events = true ∧
+    firstBefore (call "Abort") (call "Status") fail_events = true := by decide
 
 /-- the order of the steps of `fail` the model's `fail`/`failResp`/`failLog` follow: select, format, log, encode;
     the fallback formats a second time with `WithStatus(errors.New(err.Error()), …)` and encodes again; the
